@@ -28,6 +28,8 @@ func TestSim(t *testing.T) {
 		kit.Drive(t, enginesim.Engine{}, a)
 	case "linksim":
 		kit.Drive(t, facesim.LinkEngine{}, a)
+	case "rxsim":
+		kit.Drive(t, facesim.RxEngine{}, a)
 	case "streamsim":
 		kit.Drive(t, facesim.StreamEngine{}, a)
 	case "fwsim":
